@@ -17,7 +17,9 @@ import (
 	"io"
 	"net"
 	"net/http"
+	"os"
 	"path/filepath"
+	"runtime"
 	"sort"
 	"strings"
 	"sync"
@@ -42,6 +44,7 @@ type cop struct {
 
 func genCluster(t *rapid.T, p *plan) {
 	p.Mode = "cluster"
+	p.RaftSnap = rapid.SampledFrom([]int{0, 2, 4, 9}).Draw(t, "c.raftsnap")
 	n := rapid.IntRange(3, 18).Draw(t, "c.nops")
 	for i := 0; i < n; i++ {
 		l := fmt.Sprintf("c.op%d", i)
@@ -98,6 +101,7 @@ func (c *mcluster) start(n *mnode) error {
 	cfg.BindAddress = n.raft
 	cfg.HTTPBindAddress = n.http
 	cfg.LoggingEnabled = false
+	cfg.ClusterTracing = os.Getenv("VERIF_RAFT_TRACE") != ""
 	svc := meta.NewService(cfg)
 	ln, err := c.nw.Listen(n.raft)
 	if err != nil {
@@ -159,12 +163,45 @@ func execCluster(run *core.Run, p *plan) {
 		}
 		return nil
 	})
+	if p.RaftSnap > 0 {
+		verifhook.SetKnob("meta.raft.snapshot_threshold", int64(p.RaftSnap))
+		// Enough trailing entries for a follower to keep the entry a snapshot
+		// ends at: with fewer, a node that was cut off as leader (it holds an
+		// uncommitted entry beyond the snapshot's index) and then gets that
+		// snapshot installed cannot compare the previous entry of the next
+		// AppendEntries (hashicorp/raft 1.3.11 looks only at its log, not at
+		// its snapshot) and is sent the snapshot over and over - a livelock of
+		// the library that needs a snapshot newer than a follower's own log
+		// tail by less than the trailing window, which raft's shipped 10240
+		// trailing entries rule out.
+		verifhook.SetKnob("meta.raft.trailing_logs", 8)
+		verifhook.SetKnob("meta.raft.snapshot_interval", int64(2*time.Second))
+		defer verifhook.ClearKnobs()
+	}
+	verifhook.SetPoint(func(ev string, args ...interface{}) {
+		switch ev {
+		case "meta.fsm.snapshot":
+			run.Probe("raft-snapshot-taken")
+		case "meta.fsm.restore":
+			run.Probe("raft-snapshot-restored")
+		}
+	})
+	defer verifhook.SetPoint(nil)
 	nw.PolicyFor = func(addr string, n int) simnet.Policy {
 		c.mu.Lock()
 		defer c.mu.Unlock()
 		pol := simnet.NoFault
 		if c.isolated[addr] {
 			pol.Refuse = true
+		}
+		if strings.HasSuffix(addr, ":8089") {
+			// raft links take a millisecond per hop. On a network without any
+			// latency the simulated clock stands still across whole RPC
+			// exchanges; raft's file snapshot store names a snapshot by term,
+			// index and the millisecond it was created in, and two installs of
+			// one snapshot within one (standing) millisecond collide - an
+			// artefact no real network produces.
+			pol.Latency = time.Millisecond
 		}
 		return pol
 	}
@@ -455,7 +492,7 @@ func execCluster(run *core.Run, p *plan) {
 		select {
 		case <-pc.done:
 		case <-time.After(5 * time.Minute):
-			run.Fail("command-never-returns-after-heal", "", "%s was issued during a fault and has still not returned 5 simulated minutes after every node is up and connected again", pc.what)
+			run.Fail("command-never-returns-after-heal", "", "%s was issued during a fault and has still not returned 5 simulated minutes after every node is up and connected again\n%s\n%s", pc.what, c.nodeStates(), metaStacks())
 			return
 		}
 	}
@@ -465,7 +502,7 @@ func execCluster(run *core.Run, p *plan) {
 		return
 	}
 	if err != nil {
-		run.Fail("no-progress-after-heal", "", "with all three meta nodes up and connected for 30 simulated seconds a new command still fails: %v", err)
+		run.Fail("no-progress-after-heal", "", "with all three meta nodes up and connected for 30 simulated seconds a new command still fails: %v\n%s\n%s", err, c.nodeStates(), metaStacks())
 		return
 	}
 	exists["final"] = "yes"
@@ -552,4 +589,44 @@ func execCluster(run *core.Run, p *plan) {
 	run.Probe("cluster-converged")
 	run.NonTrivial = run.Faults["meta-node-stopped"]+run.Faults["meta-node-unreachable"]+run.Faults["meta-node-partitioned"] > 0
 	run.Digest = fmt.Sprintf("cluster/%d", len(p.Cluster))
+}
+
+// metaStacks returns the stacks of the goroutines that are inside the meta
+// service or its client (who waits for whom when a command hangs).
+func metaStacks() string {
+	buf := make([]byte, 4<<20)
+	buf = buf[:runtime.Stack(buf, true)]
+	var keep []string
+	for _, g := range strings.Split(string(buf), "\n\n") {
+		if strings.Contains(g, "/repo/services/meta") || (os.Getenv("VERIF_RAFT_STACKS") != "" && strings.Contains(g, "hashicorp/raft")) {
+			lines := strings.Split(g, "\n")
+			if len(lines) > 24 {
+				lines = lines[:24]
+			}
+			keep = append(keep, strings.Join(lines, "\n"))
+		}
+	}
+	s := strings.Join(keep, "\n\n")
+	if len(s) > 30000 && os.Getenv("VERIF_RAFT_STACKS") == "" {
+		s = s[:30000]
+	}
+	return s
+}
+
+// nodeStates says what every meta node reports about itself: raft status and
+// the index of the metadata it serves.
+func (c *mcluster) nodeStates() string {
+	var out []string
+	for _, n := range c.nodes {
+		st, code, err := c.get(fmt.Sprintf("http://%s/status", n.http))
+		line := fmt.Sprintf("meta node %d (%s): up=%v status=%q (%d, %v)", n.id, n.http, n.up, strings.TrimSpace(string(st)), code, err)
+		if b, code, err := c.get(fmt.Sprintf("http://%s/?index=0", n.http)); err == nil && code == 200 {
+			var d meta.Data
+			if d.UnmarshalBinary(b) == nil {
+				line += fmt.Sprintf(" serves metadata index %d term %d", d.Index, d.Term)
+			}
+		}
+		out = append(out, line)
+	}
+	return strings.Join(out, "\n")
 }
